@@ -6,11 +6,14 @@ import (
 	"go/types"
 )
 
-// walkDir models io/fs.WalkDir(fsys, root, fn) for a callback given as a function literal:
-//   - the directory of fsys cannot be read as a directory (missing, a regular file, ...): fn is called once with some
-//     non-nil error, WalkDir returns fn's result;
-//   - otherwise fn is called for the entries walkEntries(dir), in order, with a nil error; a non-nil result ends the
-//     walk and is returned (fs.SkipDir is not modelled: the callback is required to return nil on entries).
+// walkDir models io/fs.WalkDir(fsys, root, fn) for a callback given as a function literal. The walked path is the
+// directory of fsys itself for root "." and fsysDir(fsys) joined with root otherwise:
+//   - the walked path cannot be stat'ed (missing, or for root "." not readable as a directory): fn is called once, with
+//     root as its path and some non-nil error, WalkDir returns fn's result;
+//   - otherwise fn is called for the entries walkEntries(walked) (relative to the walked path, the path itself first; a
+//     regular file has just that one entry), in order, with a nil error and a path p such that joining p onto the
+//     directory of fsys gives the entry; a non-nil result ends the walk and is returned (fs.SkipDir is not modelled: the
+//     callback is required to return nil on entries).
 //
 // The entry loop is cut at the invariants of the loop contract "<function>#walk".
 // TRUSTED: this is the assumed contract of fs.WalkDir and os.DirFS, in executable-model form.
@@ -22,10 +25,45 @@ func (x *Exec) walkDir(call *ast.CallExpr, args []*Val, st *St, fr *Frame, k kva
 	fsys, fn := args[0], args[2].Fn
 	w.BG.Funs["logic.fsysDir"] = FunSig{Name: "logic.fsysDir", Args: []Sort{SRef}, Res: SStr}
 	w.BG.Funs["logic.walkEntries"] = FunSig{Name: "logic.walkEntries", Args: []Sort{SStr}, Res: SSeqStr}
-	w.BG.Funs["logic.fsMissingDir"] = FunSig{Name: "logic.fsMissingDir", Args: []Sort{SStr}, Res: SBool}
-	dir := App("logic.fsysDir", SStr, fsys.T)
+	fsDir := App("logic.fsysDir", SStr, fsys.T)
+	dir := fsDir
+	rootIsDot := false
+	if lit, ok := ast.Unparen(call.Args[1]).(*ast.BasicLit); ok && lit.Value == `"."` {
+		rootIsDot = true
+	}
+	if !rootIsDot {
+		if args[1] == nil || args[1].T == nil || args[1].T.Sort != SStr {
+			oos("fs.WalkDir with an unsupported root argument at %s", x.W.pos(call.Pos()))
+		}
+		// the walked path: the root joined onto the directory of the file system (fpJoin2 of /repo/verif_contracts.go)
+		sf, ok := w.Specs["gtree.fpJoin2"]
+		if !ok {
+			oos("fs.WalkDir with a root other than \".\" needs the spec function fpJoin2")
+		}
+		dir = App(sf.Sym, SStr, fsDir, args[1].T)
+	}
+	join := func(a, b *Term) *Term {
+		if sf, ok := w.Specs["gtree.fpJoin2"]; ok {
+			return App(sf.Sym, SStr, a, b)
+		}
+		return nil
+	}
 	entries := App("logic.walkEntries", SSeqStr, dir)
-	missing := App("logic.fsMissingDir", SBool, dir)
+	// "cannot be walked": for root "." the directory of fsys must be readable as a directory (a missing path and a
+	// regular file both fail: fsNotDir); for any other root the path must merely exist (a regular file is walked as its
+	// single entry). fsExistsAt is the os.Stat oracle of /repo/verif_contracts.go; a path that does not exist is no directory.
+	w.BG.Funs["logic.fsNotDir"] = FunSig{Name: "logic.fsNotDir", Args: []Sort{SStr}, Res: SBool}
+	var exists *Term
+	if sf, ok := w.Specs["gtree.fsExistsAt"]; ok {
+		exists = App(sf.Sym, SBool, dir)
+	}
+	missing := App("logic.fsNotDir", SBool, dir)
+	if exists != nil {
+		x.assume(st, Implies(Not(exists), missing))
+		if !rootIsDot {
+			missing = Not(exists)
+		}
+	}
 	sig := fr.info.TypeOf(fn.Lit).(*types.Signature)
 	errTy := sig.Params().At(2).Type()
 	strTy := types.Typ[types.String]
@@ -68,7 +106,11 @@ func (x *Exec) walkDir(call *ast.CallExpr, args []*Val, st *St, fr *Frame, k kva
 		}
 		// the kind of error is left open (ErrNotExist for a missing directory, ENOTDIR for a regular file, ...)
 		s1.note("fs.WalkDir: the directory is missing; the callback sees the error")
-		callFn(s1, StrLit("."), e, func(s *St, r *Val) { k(s, r) })
+		rootPath := StrLit(".")
+		if !rootIsDot {
+			rootPath = args[1].T
+		}
+		callFn(s1, rootPath, e, func(s *St, r *Val) { k(s, r) })
 	}
 	// (2) the directory exists: one callback per entry
 	s2 := st.clone()
@@ -108,7 +150,16 @@ func (x *Exec) walkDir(call *ast.CallExpr, args []*Val, st *St, fr *Frame, k kva
 		return
 	}
 	body.note("fs.WalkDir: callback for an arbitrary entry %s", i.Op)
-	callFn(body, SeqAt(entries, i), Null, func(s *St, r *Val) {
+	entryPath := SeqAt(entries, i)
+	if !rootIsDot {
+		// the path handed to the callback is relative to the file system: joined onto its directory it is the entry
+		p := x.fresh("walk.path", SStr)
+		if j1, j2 := join(fsDir, p), join(dir, SeqAt(entries, i)); j1 != nil && j2 != nil {
+			x.assume(body, Eq(j1, j2))
+		}
+		entryPath = p
+	}
+	callFn(body, entryPath, Null, func(s *St, r *Val) {
 		pos := x.W.pos(call.Pos())
 		x.emit(s, oblTemplate{kind: "walk", label: "continues", pos: pos, clause: "the WalkDir callback returns nil for an existing entry (it neither aborts the walk nor skips a directory)",
 			name: fr.fi.Key + "/walk#continues"}, nil, Eq(r.T, Null))
